@@ -6,7 +6,7 @@
 // model: lean/UnifexModel/Proto/AnyObject.lean).
 //
 //   case <id> | <cfg> | op op op ...
-//   cfg := dflt | small | throw | al64 | tiny | unique
+//   cfg := dflt | small | throw | al64 | tiny | wide | unique
 //   ops (colon separated fields, every number 1..6 decimal digits, anything else is `=bad`):
 //     C:j:cls:v:mode   construct slot j from a fresh payload   cls := sn | st | lg | oa
 //                      mode := i (in_place_type) | c (converting) | aiN (allocator_arg N) | acN
@@ -214,6 +214,7 @@ using WSmall = unifex::basic_any_object_t<8, 8, true, CA, get_val, boom>;
 using WThrow = unifex::basic_any_object_t<16, 8, false, CA, get_val, boom>;
 using WAl64 = unifex::basic_any_object_t<64, 64, true, CA, get_val, boom>;
 using WTiny = unifex::basic_any_object_t<1, 1, true, CA, get_val, boom>;
+using WWide = unifex::basic_any_object_t<64, 8, true, CA, get_val, boom>;
 using WUnique = unifex::any_unique_t<get_val_mut, boom_mut>;
 
 // ---------------------------------------------------------------- parsing (same rules as the Lean driver)
@@ -409,6 +410,7 @@ static std::string run_case(const std::string& line) {
   else if (cfg == "throw") res = Runner<WThrow, false>{}.run(id, parts[2]);
   else if (cfg == "al64") res = Runner<WAl64, false>{}.run(id, parts[2]);
   else if (cfg == "tiny") res = Runner<WTiny, false>{}.run(id, parts[2]);
+  else if (cfg == "wide") res = Runner<WWide, false>{}.run(id, parts[2]);
   else if (cfg == "unique") res = Runner<WUnique, true>{}.run(id, parts[2]);
   else return "bad-op config";
   int liveBlocks = 0;
